@@ -327,13 +327,6 @@ func fromBytesBoth(raw []byte) (rawTx *transaction.Transaction, rawErr error, bl
 	return
 }
 
-func verdict(err error) string {
-	if err == nil {
-		return "accepted"
-	}
-	return "rejected"
-}
-
 // expectReject checks a mutant's verdict, error class and the pool bookkeeping.
 func expectReject(bc *core.Blockchain, tx *transaction.Transaction, what string, classes ...error) error {
 	adm, viol := probe(bc, tx)
@@ -562,10 +555,10 @@ func checkAdm(c AdmCase, o *vt.Obs, nonCanon bool) error {
 		rejected()
 	case "badscript":
 		bad := [][]byte{
-			{byte(opcode.PUSH1), byte(opcode.JMP), 0x7f},             // jump beyond the end
-			{byte(opcode.JMP), 0xfe, byte(opcode.RET)},               // jump before the start
-			{byte(opcode.PUSHDATA1), 0x05, 0x01},                     // truncated operand
-			{byte(opcode.PUSH1), byte(opcode.JMP), 0x02, 0xff, 0x40}, // 0xff is not an opcode
+			{byte(opcode.PUSH1), byte(opcode.JMP), 0x7f},                                   // jump beyond the end
+			{byte(opcode.JMP), 0xfe, byte(opcode.RET)},                                     // jump before the start
+			{byte(opcode.PUSHDATA1), 0x05, 0x01},                                           // truncated operand
+			{byte(opcode.PUSH1), byte(opcode.JMP), 0x02, 0xff, 0x40},                       // 0xff is not an opcode
 			{byte(opcode.PUSHDATA1), 0x02, byte(opcode.JMP), 0x00, byte(opcode.JMP), 0xfd}, // jump into the middle of an instruction
 		}[mod(c.Pick, 5)]
 		M, err := k.build(c.Tx, mods{script: bad})
@@ -735,7 +728,7 @@ func checkAdm(c AdmCase, o *vt.Obs, nonCanon bool) error {
 			}
 			shared := T.rs[i].spec
 			shared.Scope = 2
-			if c.Pick%2 == 0 {
+			if c.Pick%2 == 0 || shared.Kind != "sig" {
 				signers = append(signers, shared)
 			} else {
 				signers = append([]SignerSpec{shared}, signers...)
